@@ -107,6 +107,10 @@ SITE_ALLOW = {
     ("AdtDeserializer::read_optional_field", "<Vec<T, A> as Index<I>>::index"):
         (1, "inputs[chunk]: stored_version >= chunk (T2 guard), inputs has stored_version+1 entries (T4)"),
     ("AdtDeserializer::read_optional_field", "<Vec<T, A> as IndexMut<I>>::index_mut"): (1, "same index as above"),
+    ("AdtDeserializer::read_constructor", "<Vec<T, A> as Index<I>>::index"): (1, "inputs[0] under the non-empty guard"),
+    ("AdtDeserializer::read_constructor", "<Vec<T, A> as IndexMut<I>>::index_mut"): (1, "inputs[0] under the non-empty guard"),
+    ("AdtDeserializer::read_or_get_constructor_idx", "<Vec<T, A> as Index<I>>::index"): (1, "inputs[0] under the non-empty guard"),
+    ("AdtDeserializer::read_or_get_constructor_idx", "<Vec<T, A> as IndexMut<I>>::index_mut"): (1, "inputs[0] under the non-empty guard"),
     ("<char as BinaryDeserializer>::deserialize", "<Vec<T, A> as Index<I>>::index"):
         (1, "decode_utf16 of exactly one unit yields exactly one item, so the collected Vec has length 1"),
     ("<DeserializationContext as BinaryInput>::read_bytes", "<[T] as Index<I>>::index"):
@@ -146,7 +150,24 @@ def _owner_fn(core, cg):
             if c in core.bodies:
                 return owner(core.bodies[c], depth + 1)
         return b.key
-    return owner
+
+    def users(b, depth=0, seen=None):
+        """accounting functions of all (transitive) callers of a private non-anchor helper; empty if `b` is not one"""
+        seen = seen if seen is not None else set()
+        if b.defn in seen or depth > 4:
+            return set()
+        seen.add(b.defn)
+        if b.key in ANCHORS or b.vis in (None, "Public") or (b.impl and b.impl.get("trait")) or b.in_trait:
+            return set()
+        out = set()
+        for c in callers.get(b.defn, set()):
+            cb = core.bodies[c]
+            if cb.kind == "Closure":
+                cb = core.bodies.get(cb.raw.get("root"), cb)
+            sub = users(cb, depth + 1, seen)
+            out |= sub if sub else {owner(cb)}
+        return out
+    return owner, users
 
 
 def _operand_ty(o):
@@ -293,7 +314,7 @@ def may_panic(an, rep, side, rule_id, min_roots=90, min_reach=100, crate=None, r
     n_assert = n_panic = n_ext = 0
     from ..layers import primitive_unit
     unit = primitive_unit(core) if crate is None else set()
-    owner = _owner_fn(core, cg)
+    owner, owner_users = _owner_fn(core, cg)
     n_unit = 0
     for defn, path in sorted(paths.items()):
         b = core.bodies[defn]
@@ -344,13 +365,22 @@ def may_panic(an, rep, side, rule_id, min_roots=90, min_reach=100, crate=None, r
                         R.ok(sample={"fn": b.key, "call": info["key"], "discharged_by": why})
                         continue
                     counts.setdefault((owner(b), info["key"]), []).append((b, bb, t, path))
-    for (fk, kind), sites in sorted(counts.items(), key=lambda kv: kv[0]):
+    def lookup(fk, kind):
         if kind == "panic":
-            allow = PANIC_ALLOW.get(fk)
-        elif kind.startswith(("Overflow", "Bounds", "Division", "Remainder")):
-            allow = ASSERT_ALLOW.get((fk, kind))
-        else:
-            allow = SITE_ALLOW.get((fk, kind))
+            return PANIC_ALLOW.get(fk)
+        if kind.startswith(("Overflow", "Bounds", "Division", "Remainder")):
+            return ASSERT_ALLOW.get((fk, kind))
+        return SITE_ALLOW.get((fk, kind))
+
+    for (fk, kind), sites in sorted(counts.items(), key=lambda kv: kv[0]):
+        allow = lookup(fk, kind)
+        if allow is None:
+            # a private helper shared by several functions: admitted when every function that uses it has the entry
+            users = owner_users(sites[0][0])
+            if users:
+                ents = [lookup(u, kind) for u in users]
+                if all(e is not None and e[0] >= 1 for e in ents):
+                    allow = (max(e[0] for e in ents), "shared helper of %s: %s" % (sorted(users), ents[0][1]))
         if allow and len(sites) <= allow[0]:
             for _ in sites:
                 R.ok(sample={"fn": fk, "site": kind, "allow_listed": allow[1]})
